@@ -198,7 +198,7 @@ pub fn judge(case: &Case, l: &mut Local, peers: Option<&[(String, Observed)]>) {
             &ty,
             "method-disagrees-with-predicates",
             &format!(
-                "{}->{}",
+                "{}:{implied}->{}",
                 if case.flag119.is_some() && supporting(&case.mt) {
                     at119.to_string()
                 } else if !supporting(&case.mt) {
